@@ -9,7 +9,7 @@ RULE = ("pairs of dictionary trees (dictionaries nested 1-4 deep over a 5-key al
         "policy, and 1-3 per-field options (4 kinds) whose dotted paths are present / absent in either tree and name dictionaries, "
         "lists or primitives, including paths that share their last component with settings at another depth; PathSep applied "
         "before or after the Field option; index and '*' segments over lists of objects, lists of lists and names below lists. Oracle: Spec.C01.merge with the policy of the longest configured path that is a "
-        "prefix of the setting's path (Spec.C01.polOf). Non-trivial: some configured path exists in both trees. Distinct by "
+        "prefix of the setting's path (Spec.C01.polOf). Plus: index and '*' segments decided by the oracle (lists of objects, lists of lists, names below lists), '**' wildcards next to exact paths and Option values reused for a second merge (model comparison). Non-trivial: some configured path exists in both trees. Distinct by "
         "(global policy, field policies, path depth, where the path's last component also occurs, conflict kinds).")
 TRUSTED_BASE = ["Lean 4 kernel", "extractor: configHandling enumeration order",
                 "Model/Merge.lean (fieldOptsOverride, fhNode, includeWildcard) transcribes merge.go/opts.go (differential check)",
